@@ -552,7 +552,7 @@ def check(run: Run, prog: Program, cy: CyProgram, sites):
     n = report_sites(run, "W4", sites, lambda s: s.kernel.name.startswith(
         ("_randomly_rewire_geomodel", "_randomlySetCrossLinks",
          "_randomlyRewireCrossLinks")))
-    run.floor("W4 call sites", n, 5)
+    run.floor("W4 call sites", n, 1)
     w5_siblings(run, prog, cy)
     w6_order(run, prog)
     w7_ba(run, prog)
